@@ -180,7 +180,7 @@ theorem actionSpec_valid_iff (cfg : Cfg) (m : Move) : (actionSpec cfg).valid (ac
 
 /-- C01: for every constructible cube size (`n ≥ 2`, otherwise `action_spec` itself is rejected by its constructor) the action
 `generate_value()` is an action of the action space, and `step` answers it with a protocol-conform timestep -/
-theorem accepts_generate_value (cfg : Cfg) (hn : 2 ≤ cfg.n) (s : State) :
+theorem accepts_generate_value (cfg : Cfg) (hn : 2 ≤ cfg.n) (hbig : cfg.n / 2 ≤ 2147483648) (s : State) :
     (actionSpec cfg).WF = true ∧ (actionSpec cfg).valid (actionSpec cfg).generate = true ∧
     (actionSpec cfg).generate = actionArr (Move.act ⟨0, 0, 0⟩) ∧ legal cfg.n ⟨0, 0, 0⟩ ∧
     StepOK none false (step cfg s (Move.act ⟨0, 0, 0⟩)).2 = true := by
@@ -189,13 +189,19 @@ theorem accepts_generate_value (cfg : Cfg) (hn : 2 ≤ cfg.n) (s : State) :
     show (0 : Nat) < 6 ∧ 0 < cfg.n / 2 ∧ (0 : Nat) < 3
     exact ⟨by omega, hh, by omega⟩
   have hw : (actionSpec cfg).WF = true := by
-    simp [actionSpec, Leaf.WF, prod, DType.isInt]; omega
+    have fitsI : ∀ z : Int, -2147483648 ≤ z → z ≤ 2147483647 → DType.int32.fits ((z : Int) : Rat) = true := by
+      intro z h1 h2; simp [DType.fits, DType.intRange, Rat.den_intCast, Rat.num_intCast, h1, h2]
+    have h6 : DType.int32.fits ((((6:Nat) : Int) - 1 : Int) : Rat) = true := fitsI _ (by omega) (by omega)
+    have h3 : DType.int32.fits ((((3:Nat) : Int) - 1 : Int) : Rat) = true := fitsI _ (by omega) (by omega)
+    have hd : DType.int32.fits (((((cfg.n/2 : Nat)) : Int) - 1 : Int) : Rat) = true := fitsI _ (by omega) (by omega)
+    simp only [actionSpec, Leaf.WF, Leaf.WF0, Leaf.fitsDType, List.all_cons, List.all_nil, h6, h3, hd]
+    simp [prod, DType.isInt]; omega
   exact ⟨hw, Leaf.generate_valid _ hw, actionSpec_generate cfg, hl, step_protocol cfg s _⟩
 
 /-- for `n < 2` the constructor of `MultiDiscreteArray` refuses `num_values = [6, 0, 3]` -/
 theorem actionSpec_not_WF_small (cfg : Cfg) (hn : cfg.n < 2) : (actionSpec cfg).WF = false := by
   have : cfg.n / 2 = 0 := by omega
-  simp [actionSpec, Leaf.WF, this]
+  simp [actionSpec, Leaf.WF, Leaf.WF0, this]
 
 /-! ### C11: whole episodes -/
 
